@@ -4,6 +4,8 @@ The property of each fix commit is given by the first matching keyword below."""
 import json, subprocess
 
 RULES = [  # (substring of the commit subject, property ids)
+ ("(untrusted input)", "C16"), ("segmenter example", "C11"), ("resegmenter example", "C11"), ("Fragmentify lost", "C11"),
+ ("ParseReadSenc panicked", "C04"), ("lazy-mdat mode looped", "C04"),
  ("mp4ff-crop", "C10"), ("GetParameterSetsFromByteStream", "C14"),
  ("DecodePicTimingHevcSEI", "C17"), ("SEI type 4/5", "C17"),
  ("avc PPS", "C15"), ("avc slice_group_change_cycle", "C15"), ("hevc slice", "C15"), ("hevc colour mapping", "C15"),
